@@ -21,6 +21,7 @@ import (
 	projectstypes "github.com/lavanet/lava/v5/x/projects/types"
 	spectypes "github.com/lavanet/lava/v5/x/spec/types"
 	subscriptiontypes "github.com/lavanet/lava/v5/x/subscription/types"
+	timerstoretypes "github.com/lavanet/lava/v5/x/timerstore/types"
 )
 
 // ---- identities: 1 = provider (tx creator), 2 = developer key of the project, 3 = subscription owner,
@@ -100,7 +101,8 @@ const verifRPEpochBlocks = 20
 
 type verifRPEpochs struct {
 	types.EpochstorageKeeper
-	earliest uint64
+	earliest     uint64
+	blocksToSave uint64
 }
 
 func (m *verifRPEpochs) GetEpochStartForBlock(ctx sdk.Context, block uint64) (uint64, uint64, error) {
@@ -108,9 +110,9 @@ func (m *verifRPEpochs) GetEpochStartForBlock(ctx sdk.Context, block uint64) (ui
 }
 func (m *verifRPEpochs) GetEarliestEpochStart(ctx sdk.Context) uint64 { return m.earliest }
 func (m *verifRPEpochs) BlocksToSave(ctx sdk.Context, block uint64) (uint64, error) {
-	return 10 * verifRPEpochBlocks, nil
+	return m.blocksToSave, nil
 }
-func (m *verifRPEpochs) BlocksToSaveRaw(ctx sdk.Context) uint64 { return 10 * verifRPEpochBlocks }
+func (m *verifRPEpochs) BlocksToSaveRaw(ctx sdk.Context) uint64 { return m.blocksToSave }
 func (m *verifRPEpochs) GetEpochStart(ctx sdk.Context) uint64   { return 100 }
 
 type verifRPSpecs struct {
@@ -199,7 +201,7 @@ func verifRPNewWorld(epochLimit uint64, earliest uint64) *verifRPWorld {
 	key := storetypes.NewKVStoreKey(types.StoreKey)
 	w := &verifRPWorld{}
 	w.ctx = verifCtx(100, 1700000000, key)
-	w.epochs = &verifRPEpochs{earliest: earliest}
+	w.epochs = &verifRPEpochs{earliest: earliest, blocksToSave: 10 * verifRPEpochBlocks}
 	w.specs = &verifRPSpecs{enabled: true, found: true}
 	w.projects = &verifRPProjects{developer: verifRPAddr(2), project: projectstypes.Project{Index: "proj", Subscription: verifRPAddr(3), Enabled: true}}
 	w.subs = &verifRPSubs{
@@ -398,4 +400,86 @@ func VerifRPAuth() {
 		verif_assert("early-rejection-leaves-no-session-mark", !w.k.IsUniqueEpochSessionExists(w.ctx, uint64(epoch)-uint64(epoch)%20, verifRPAddr(1), "proj", "LAV1", 1))
 	}
 	verif_reach("rejected")
+}
+
+// VerifRPBadge: one payment transaction with n relays signed by a badge user (identity 4) on sessions 1..n of epoch
+// 40, all carrying the same badge that the project's developer key (identity 2) signed.  The badge's user address,
+// epoch, lava chain id and CU allocation are symbolic, as are the usage already recorded for (badge, provider) and
+// the age of the badge relative to the chain's memory.
+func VerifRPBadge() {
+	n := verif_param("relays", 2)
+	alloc := verif_nondet_u64("badge.CuAllocation")
+	recorded := verif_nondet_bool("badgeUsage.recorded")
+	used := verif_nondet_u64("badgeUsage.UsedCu")
+	badgeForSigner := verif_nondet_bool("badge.addressIsRelaySigner")
+	badgeEpoch := uint64(20 * verif_nondet_range("badge.epoch", 1, 2)) // 20 or 40 (the relays name 40)
+	badgeChainOK := verif_nondet_bool("badge.lavaChainIdIsThisChain")
+	badgeSignedByDeveloper := verif_nondet_bool("badge.signedByDeveloperKey")
+	blocksToSave := uint64(20 * verif_nondet_range("blocksToSaveInEpochs", 2, 10)) // usage record expiry = badge epoch + this
+	allowed := verif_nondet_u64("epochAllowedCU")
+	bits := uint(verif_param("cu_bits", 40))
+	verif_assume(allowed > 0 && allowed < 1<<40 && used <= alloc)
+	if bits < 64 {
+		verif_assume(alloc < 1<<bits)
+	}
+	if !recorded {
+		used = 0
+	}
+	w := verifRPNewWorld(allowed, 20)
+	w.epochs.blocksToSave = blocksToSave
+	w.k.badgeTimerStore = *timerstoretypes.NewTimerStore(w.k.storeKey, w.k.cdc, types.BadgeTimerStorePrefix).WithCallbackByBlockHeight(func(sdk.Context, []byte, []byte) {})
+	w.srv = msgServer{Keeper: w.k}
+	w.setPairing("LAV1", 40, allowed, true)
+	badge := &types.Badge{CuAllocation: alloc, Epoch: badgeEpoch, Address: verifRPAddr(5), LavaChainId: "other"}
+	if badgeForSigner {
+		badge.Address = verifRPAddr(4)
+	}
+	if badgeChainOK {
+		badge.LavaChainId = "lava"
+	}
+	if badgeSignedByDeveloper {
+		verifRPSignBadge(badge, 2)
+	} else {
+		verifRPSignBadge(badge, 5)
+	}
+	usageKey := types.BadgeUsedCuKey(append([]byte{}, badge.ProjectSig...), verifRPAddr(1))
+	if recorded {
+		w.k.SetBadgeUsedCu(w.ctx, types.BadgeUsedCu{BadgeUsedCuKey: usageKey, UsedCu: used})
+	}
+	msg := &types.MsgRelayPayment{Creator: verifRPAddr(1)}
+	cus := make([]uint64, n)
+	var signedTotal uint64
+	for i := 0; i < n; i++ {
+		cus[i] = verif_nondet_u64("relay.cuSum")
+		verif_assume(cus[i] > 0)
+		if bits < 64 {
+			verif_assume(cus[i] < 1<<bits)
+		}
+		signedTotal += cus[i]
+		r := verifRPRelay(40, uint64(i+1), cus[i])
+		r.Badge = badge
+		verifRPSign(r, 4)
+		msg.Relays = append(msg.Relays, r)
+	}
+
+	_, err := w.srv.RelayPayment(sdk.WrapSDKContext(w.ctx), msg)
+
+	after, found := w.k.GetBadgeUsedCu(w.ctx, usageKey)
+	if err != nil {
+		verif_assert("failed-badge-transaction-credits-at-most-its-accepted-prefix", len(w.subs.tracked) <= n)
+		verif_reach("rejected")
+		return
+	}
+	// C18 / C05: the badge is honoured only for its own user, epoch and chain, signed by a developer of the project
+	verif_assert("badge-honoured-only-for-its-user-epoch-and-chain", badgeForSigner && badgeEpoch == 40 && badgeChainOK)
+	verif_assert("badge-honoured-only-when-signed-by-a-developer-key-of-the-project", badgeSignedByDeveloper)
+	verif_assert("new-usage-record-only-while-not-expired", recorded || badgeEpoch+blocksToSave > 100)
+	verif_assert("usage-recorded", found)
+	verif_assert("badge-usage-grows-by-the-signed-cu", after.UsedCu == used+signedTotal)
+	verif_assert("badge-usage-never-exceeds-allocation", used+signedTotal >= used && after.UsedCu <= alloc)
+	verif_assert("every-badge-relay-credited-once", len(w.subs.tracked) == n && len(w.projects.charges) == n)
+	if !recorded {
+		verif_assert("usage-record-gets-its-expiry-timer", w.k.badgeTimerStore.HasTimerByBlockHeight(w.ctx, badgeEpoch+blocksToSave, usageKey))
+	}
+	verif_reach("accepted")
 }
